@@ -20,7 +20,7 @@ MANIFEST = {
           'distinctness, server diversity and repeatability. Exhaustive within that product.',
   'note': 'Trusted: the key table (one metric name per ring position, built with the reference hash in '
           'mc/ref/ring.py). mmh3/pyhash are absent, so only carbon_ch and fnv1a_ch are covered. Random metric '
-          'names of the quantifier are replaced by exhaustive position coverage.',
+          'names of the quantifier are replaced by exhaustive position coverage. Aggregation-aware variants are also run with two stub rules (a metric feeding two aggregates: union of both complete routings), and per hash type a pair of destinations with colliding node hashes is searched and routed.',
 }
 
 UNIVERSE = [
